@@ -3,6 +3,7 @@
 package gen
 
 import (
+	"fmt"
 	"math/rand"
 
 	"xvh/vdoc"
@@ -136,6 +137,97 @@ func (g *G) wideDoc() *vdoc.Doc {
 		panic(err)
 	}
 	return d
+}
+
+// ScaleDoc builds documents past the usual buffer / counter thresholds (64, 256): kind 0 = one parent with 258-300
+// children (mixed kinds, an attribute here and there), kind 1 = a chain of 66-72 nested elements with a text at the
+// bottom and a sibling here and there, kind 2 = one element with 66-70 attributes and 66-70 element children.
+func (g *G) ScaleDoc(kind int) *vdoc.Doc {
+	nodes := []vdoc.Node{{K: "root"}, {K: "elem", N: "r", P: 1}}
+	switch kind {
+	case 0:
+		last := ""
+		for i, n := 0, 258+g.R.Intn(43); i < n; i++ {
+			switch r := g.R.Intn(12); {
+			case r < 9 || last == "text":
+				nodes = append(nodes, vdoc.Node{K: "elem", N: g.pick([]string{"a", "a", "b"}), P: 2})
+				last = "elem"
+				if g.R.Intn(8) == 0 {
+					nodes = append(nodes, vdoc.Node{K: "attr", N: "id", P: len(nodes), V: fmt.Sprint(i)})
+				}
+			case r < 11:
+				nodes = append(nodes, vdoc.Node{K: "text", P: 2, V: g.pick(g.Texts)})
+				last = "text"
+			default:
+				nodes = append(nodes, vdoc.Node{K: "comment", P: 2, V: "k"})
+				last = "comment"
+			}
+		}
+	case 1:
+		p := 2
+		for i, n := 0, 66+g.R.Intn(7); i < n; i++ {
+			if g.R.Intn(10) == 0 {
+				nodes = append(nodes, vdoc.Node{K: "elem", N: "b", P: p})
+			}
+			nodes = append(nodes, vdoc.Node{K: "elem", N: g.pick([]string{"a", "a", "b"}), P: p})
+			p = len(nodes)
+		}
+		nodes = append(nodes, vdoc.Node{K: "text", P: p, V: "1"})
+	default:
+		for i, n := 0, 66+g.R.Intn(5); i < n; i++ {
+			nodes = append(nodes, vdoc.Node{K: "attr", N: fmt.Sprintf("a%d", i), P: 2, V: fmt.Sprint(i % 7)})
+		}
+		for i, n := 0, 66+g.R.Intn(5); i < n; i++ {
+			nodes = append(nodes, vdoc.Node{K: "elem", N: g.pick([]string{"a", "b"}), P: 2})
+		}
+	}
+	d, err := vdoc.New(nodes)
+	if err != nil {
+		panic(err)
+	}
+	return d
+}
+
+// ScaleExpr draws short expressions whose interesting inputs are LARGE counts: positions around 64 and 256, unions and
+// reversals of many nodes, absolute paths (to be evaluated from deep inside), attribute and descendant sweeps.
+func (g *G) ScaleExpr() (*xast.Expr, string) {
+	ch := func(n string, preds ...*xast.Expr) xast.Step {
+		nt := xast.NT{K: "any"}
+		if n != "*" {
+			nt = xast.NT{K: "name", N: n}
+		}
+		return xast.Step{Ax: "child", Nt: nt, Preds: preds}
+	}
+	path := func(abs bool, st ...xast.Step) *xast.Expr { return &xast.Expr{T: "path", Abs: abs, Steps: st} }
+	pos := []int64{1, 2, 63, 64, 65, 66, 127, 128, 129, 255, 256, 257, 258}
+	n := num(pos[g.R.Intn(len(pos))])
+	name := g.pick([]string{"a", "b", "*"})
+	r := ch("r")
+	switch g.R.Intn(12) {
+	case 0:
+		return path(true, r, ch(name, n)), "seq"
+	case 1:
+		return path(true, r, ch(name, bin(g.pick([]string{"=", ">", "<="}), call("position"), n))), "seq"
+	case 2:
+		return path(true, r, ch(name, bin("-", call("last"), num(int64(g.R.Intn(3)))))), "seq"
+	case 3:
+		return &xast.Expr{T: "union", L: path(true, r, ch("*")), R: path(true, r, ch(name, n))}, "once"
+	case 4:
+		return &xast.Expr{T: "union", L: path(true, r, ch("a")), R: path(true, r, ch("*"))}, "once"
+	case 5:
+		return call("count", path(true, r, ch(name))), "set"
+	case 6:
+		return path(true, xast.Step{Ax: "descendant-or-self", Nt: xast.NT{K: "node"}}, ch(name)), "seq"
+	case 7:
+		return path(true), "set" // the root, from wherever
+	case 8:
+		return path(true, xast.Step{Ax: "child", Nt: xast.NT{K: "any"}}), "seq"
+	case 9:
+		return path(false, xast.Step{Ax: g.pick([]string{"ancestor", "ancestor-or-self", "preceding-sibling", "following-sibling", "preceding", "following"}), Nt: xast.NT{K: "any"}}), "set"
+	case 10:
+		return path(true, r, xast.Step{Ax: "attribute", Nt: xast.NT{K: "any"}}), "seq"
+	}
+	return &xast.Expr{T: "filter", E: path(true, xast.Step{Ax: "descendant-or-self", Nt: xast.NT{K: "node"}}, ch(name)), Preds: []*xast.Expr{n}}, "set"
 }
 
 // twinDoc: two or three IDENTICAL branches three or four levels deep under one element: nodes of different branches
